@@ -120,6 +120,11 @@ func ShortKey(o *types.Func) string {
 // has ShortKey key ("Connection.protocolError", "typed.ReadBuffer.ReadBytes",
 // "FramePool.Release" for an interface method, "sync.Mutex.Lock").
 func IsCall(i ssa.Instruction, keys ...string) (ssa.CallInstruction, bool) {
+	for _, k := range keys {
+		if !queriedKeys[k] {
+			queriedKeys[k] = true
+		}
+	}
 	c, ok := i.(ssa.CallInstruction)
 	if !ok {
 		return nil, false
@@ -814,5 +819,116 @@ func Loops(f *ssa.Function) []*Loop {
 	for _, h := range order {
 		out = append(out, byHeader[h])
 	}
+	return out
+}
+
+// queriedKeys records every callee key a rule asked about (IsCall and its
+// users); UnresolvedKeys compares them with the functions and methods that
+// exist in the loaded program: a key that names nothing means the code was
+// renamed or restructured under a rule, whose verdict is then unreliable.
+var queriedKeys = map[string]bool{}
+
+// UnresolvedKeys lists queried callee keys that match no function, method or
+// interface method of any loaded package.
+func (p *Prog) UnresolvedKeys() []string {
+	have := map[string]bool{}
+	addObj := func(o *types.Func) {
+		if o != nil {
+			have[ShortKey(o)] = true
+		}
+	}
+	for _, pk := range p.SSA.AllPackages() {
+		if pk.Pkg == nil {
+			continue
+		}
+		sc := pk.Pkg.Scope()
+		for _, n := range sc.Names() {
+			switch o := sc.Lookup(n).(type) {
+			case *types.Func:
+				addObj(o)
+			case *types.TypeName:
+				if nt, ok := o.Type().(*types.Named); ok {
+					for k := 0; k < nt.NumMethods(); k++ {
+						addObj(nt.Method(k))
+					}
+					if it, ok := nt.Underlying().(*types.Interface); ok {
+						for k := 0; k < it.NumMethods(); k++ {
+							addObj(it.Method(k))
+						}
+					}
+				}
+			}
+		}
+	}
+	var out []string
+	for k := range queriedKeys {
+		if !have[k] {
+			out = append(out, k)
+		}
+	}
+	sort.Strings(out)
+	return out
+}
+
+// CallsDeep lists calls to keys in f, in the closures f creates, and in the
+// statically resolved callees of f inside the analysed packages, down to
+// `depth` levels: the view a rule needs to be indifferent to a block of f
+// having been extracted into a helper.
+func (p *Prog) CallsDeep(f *ssa.Function, depth int, keys ...string) []ssa.CallInstruction {
+	seen := map[*ssa.Function]bool{}
+	var out []ssa.CallInstruction
+	var walk func(g *ssa.Function, d int)
+	walk = func(g *ssa.Function, d int) {
+		if g == nil || seen[g] || len(g.Blocks) == 0 {
+			return
+		}
+		seen[g] = true
+		EachInstr(g, func(i ssa.Instruction) {
+			if c, ok := IsCall(i, keys...); ok {
+				out = append(out, c)
+			}
+			if mc, ok := i.(*ssa.MakeClosure); ok {
+				if cf, ok := mc.Fn.(*ssa.Function); ok {
+					walk(cf, d)
+				}
+			}
+			if c, ok := i.(ssa.CallInstruction); ok && d > 0 {
+				if cal := c.Common().StaticCallee(); cal != nil && p.InAnalysed(cal) {
+					walk(cal, d-1)
+				}
+			}
+		})
+	}
+	IsCall(nil, keys...)
+	walk(f, depth)
+	return out
+}
+
+// FuncsDeep lists f, its closures and its static callees in the analysed
+// packages down to depth levels.
+func (p *Prog) FuncsDeep(f *ssa.Function, depth int) []*ssa.Function {
+	seen := map[*ssa.Function]bool{}
+	var out []*ssa.Function
+	var walk func(g *ssa.Function, d int)
+	walk = func(g *ssa.Function, d int) {
+		if g == nil || seen[g] || len(g.Blocks) == 0 {
+			return
+		}
+		seen[g] = true
+		out = append(out, g)
+		EachInstr(g, func(i ssa.Instruction) {
+			if mc, ok := i.(*ssa.MakeClosure); ok {
+				if cf, ok := mc.Fn.(*ssa.Function); ok {
+					walk(cf, d)
+				}
+			}
+			if c, ok := i.(ssa.CallInstruction); ok && d > 0 {
+				if cal := c.Common().StaticCallee(); cal != nil && p.InAnalysed(cal) {
+					walk(cal, d-1)
+				}
+			}
+		})
+	}
+	walk(f, depth)
 	return out
 }
